@@ -362,6 +362,12 @@ MOLS = {
     "OH": dict(atom="O 0 0 0; H 0 0 0.97", spin=1, charge=0),
     "O": dict(atom="O 0 0 0", spin=2, charge=0),
     "He": dict(atom="He 0 0 0", spin=0, charge=0),
+    # the same molecules with the atoms listed in the other order (same natm / nbas, other
+    # per-atom layout)
+    "HLi": dict(atom="H 0 0 1.6; Li 0 0 0", spin=0, charge=0),
+    "HO": dict(atom="H 0 0 0.97; O 0 0 0", spin=1, charge=0),
+    "HHe+": dict(atom="H 0 0 0.77; He 0 0 0", spin=0, charge=1),
+    "H2O_r": dict(atom="H 0 0.757 -0.469; H 0 -0.757 -0.469; O 0 0 0.117", spin=0, charge=0),
     "Li": dict(atom="Li 0 0 0", spin=1, charge=0),
     "CH4": dict(atom="C 0 0 0; H 0.63 0.63 0.63; H -0.63 -0.63 0.63; H -0.63 0.63 -0.63; H 0.63 -0.63 -0.63", spin=0, charge=0),
     "H6": dict(atom="; ".join("H 0 0 %.2f" % (0.8 * i) for i in range(6)), spin=0, charge=0),
